@@ -49,7 +49,7 @@ theorem step_stopping_reqFree {s : St} (h : SInv s) (cfg : Cfg) (e : Ev) (hst : 
     split
     · intro o ho; simp at ho; subst ho; rfl
     · exact (joinAndSync_afterStop (s := { s with started := true, startResult := none }) h.stop_needed).2 hst
-  | stop => simp only [step]; exact reqFree_of_bg (stopCall_bg _ _ _ _)
+  | stop => simp only [step]; exact reqFree_of_bg (userStop_bg _ _)
   | coordDone r =>
     simp only [step]
     split
@@ -200,7 +200,7 @@ theorem step_req_keeps_stopping (cfg : Cfg) (s : St) (e : Ev) :
     split
     · intro _; rfl
     · intro _; exact jas _
-  | stop => simp only [step]; exact vac (reqFree_of_bg (stopCall_bg _ _ _ _))
+  | stop => simp only [step]; exact vac (reqFree_of_bg (userStop_bg _ _))
   | coordDone r =>
     simp only [step]
     split
